@@ -14,7 +14,7 @@ LEVEL = 'exploration'
 RULE = ('inputs: Hypothesis text() over the full code-point range (surrogates, NUL, BOM); lexical soup with `/` '
         'and broken pieces; every kind of single-character corruption (delete / replace by one of 46 hot characters) '
         'and truncation of G1 programs and repository snippets; exhaustively all strings of length <= 3 (quick) / '
-        '<= 4 (thorough) over a hot alphabet; runs of 33 / 48 / 600 repetitions of one lexical unit (combining marks, escapes, brackets, comment and string openers, operators ...) in 16 contexts where the lexer looks ahead or retries; a coverage-guided atheris/libFuzzer campaign (seed corpus = repository snippets + empty input, JS token dictionary) with the same oracle inside the target; each through parse(text), parse(text, with_comments=True) and bare '
+        '<= 4 (thorough) over a hot alphabet; runs of 33 / 48 / 600 repetitions of one lexical unit (combining marks, escapes, brackets, comment and string openers, operators ...) in 24 contexts where the lexer looks ahead or retries; long flat expressions and long runs (1500 / 6000) of blank lines of every kind, comment lines and comments in a row; a coverage-guided atheris/libFuzzer campaign (seed corpus = repository snippets + empty input, JS token dictionary) with the same oracle inside the target; each through parse(text), parse(text, with_comments=True) and bare '
         'Lexer iteration. Oracle: outcome is a tree or ECMASyntaxError (subclass); nothing else escapes; no case '
         'exceeds the process-level watchdog twice (each case runs in a child interpreter that is killed on timeout); the first quoted text of a syntax-error message occurs in the input at the '
         'quoted line:column. non-trivial = input containing a string/regex/comment opener or >= 2 tokens '
@@ -355,6 +355,11 @@ def run_texts():
     # long flat expressions (left-nested trees) as statement, initialiser and argument
     for ctx in ('%sz;', 'x = %sz;', 'f(%sz);', 'if (%sz) y;'):
         for unit in ('a + ', 'a.', 'f().', 'a[0].', 'a, ', 'a || ', 'a = ', 'a ? b : '):
+            yield ctx % (unit * 1500)
+            yield ctx % (unit * 6000)
+    # long runs of layout: blank lines of every kind, comment lines, comments in a row
+    for ctx in ('%s', '%sz;', 'z;%s', 'a = b%sc;', 'a%s;'):
+        for unit in ('\n', '\r\n', '\r', u'\u2028', u'\u2029', '//c\n', '/*c*/', '/*c*/\n', ' \n', '/*\n*/ ', '\t\n//\n'):
             yield ctx % (unit * 1500)
             yield ctx % (unit * 6000)
 
